@@ -1286,6 +1286,40 @@ func genSchema(L *loader) (string, any, []string) {
 		sb.WriteString(fmt.Sprintf("  (%q, %q)%s\n", fn, cond, sep))
 	}
 	sb.WriteString("]\n")
+	// ---- every `make` in a decoder body whose size is not a literal (candidates for
+	// allocation from an untrusted length); the Lean side ties the list to a reviewed one
+	sb.WriteString("\n/-- (decoder, `make` call whose length is computed at run time) -/\ndef decoderMakes : List (String × String) := [\n")
+	var makes []string
+	for _, k := range keys {
+		u := g.units[k]
+		if u.dec == nil {
+			continue
+		}
+		ast.Inspect(u.dec.Body, func(n ast.Node) bool {
+			call, ok := n.(*ast.CallExpr)
+			if !ok {
+				return true
+			}
+			id, ok := call.Fun.(*ast.Ident)
+			if !ok || id.Name != "make" || len(call.Args) < 2 {
+				return true
+			}
+			lit := true
+			for _, a := range call.Args[1:] {
+				if _, ok := a.(*ast.BasicLit); !ok {
+					lit = false
+				}
+			}
+			if !lit {
+				var pb strings.Builder
+				printer.Fprint(&pb, L.fset, call)
+				makes = append(makes, fmt.Sprintf("  (%q, %q)", k, pb.String()))
+			}
+			return true
+		})
+	}
+	sb.WriteString(strings.Join(makes, ",\n"))
+	sb.WriteString("\n]\n")
 	// ---- constants of irregular codecs: the resolution type tags
 	encTags, err1 := g.resolutionTags(true)
 	decTags, err2 := g.resolutionTags(false)
